@@ -46,6 +46,7 @@ _ENS = [
     ("C50-blocks-tile-the-file", "all(result[0][i] + result[1][i] == result[0][i + 1] for i in range(len(result[0]) - 1)) and result[0][len(result[0]) - 1] + result[1][len(result[1]) - 1] == size"),
     ("C50-starts-at-the-beginning", "result[0][0] == (1 if not_zero else 0)"),
     ("C50-no-empty-block", "all(result[1][i] >= 1 for i in range(1, len(result[1]))) and result[1][0] >= (0 if not_zero else 1)"),
+    ("C50-no-two-blocks-share-offset-and-length", "forall(lambda i, j: implies(0 <= i and i < j and j < len(result[0]), result[0][i] != result[0][j] or result[1][i] != result[1][j]))"),
 ]
 _REQ = [("size", "1 <= size and size < 1099511627776"), ("blocksize", "1 <= blocksize and blocksize < 1099511627776")]
 
@@ -61,6 +62,7 @@ offsets_int = Contract(
         ("shape", "len(off) == len(length) + 1 and len(length) >= 0 and off[0] == 0"),
         ("tiling", "all(off[i] + length[i] == off[i + 1] for i in range(len(length)))"),
         ("positive", "all(length[i] >= 1 for i in range(len(length)))"),
+        ("increasing", "forall(lambda i, j: implies(0 <= i and i < j and j < len(off), off[i] < off[j]))"),
         ("place", "place == off[len(off) - 1] and place >= 0 and place < size"),
         ("blocksize1", "blocksize1 == blocksize"),
     ])},
@@ -79,6 +81,7 @@ offsets_float = Contract(
         ("shape", "len(off) == len(length) + 1 and len(length) >= 0 and off[0] == 0"),
         ("tiling", "all(off[i] + length[i] == off[i + 1] for i in range(len(length)))"),
         ("positive", "all(length[i] >= 1 for i in range(len(length)))"),
+        ("increasing", "forall(lambda i, j: implies(0 <= i and i < j and j < len(off), off[i] < off[j]))"),
         ("place", "off[len(off) - 1] <= place and place < off[len(off) - 1] + 1 and place >= 0 and place < size"),
         ("blocksize1", "blocksize1 >= 2 and blocksize1 >= blocksize"),
     ])},
